@@ -221,7 +221,20 @@ def decide_q_lt_none(gate, part):
         return True
 
 
-DECIDERS = {'q_ge': decide_q_ge, 'q_lt': decide_q_lt, 'all': decide_all, 'q_ge_none': decide_q_ge_none,
+def _passes(part, name):
+    return sum(1 for d in part.routing_history if d.name == name)
+
+
+def decide_again(gate, part):
+    '''Parts that went through the buffer called B fewer than twice go round again.'''
+    return _passes(part, 'B') < 2
+
+
+def decide_done(gate, part):
+    return _passes(part, 'B') >= 2
+
+
+DECIDERS = {'again': decide_again, 'done': decide_done, 'q_ge': decide_q_ge, 'q_lt': decide_q_lt, 'all': decide_all, 'q_ge_none': decide_q_ge_none,
             'q_lt_none': decide_q_lt_none}
 
 
@@ -596,6 +609,7 @@ class LineWorld:
         self.nsrc = 0
         for d in spec['devices']:
             self.make_device(d)
+        self.apply_rewire()
         self.n_static = Asset._id_counter
         # observers around every give_part
         for a in self.system._assets:
@@ -609,7 +623,7 @@ class LineWorld:
         spec = self.spec
         k = d['kind']
         name = d['name']
-        up = [self.dev[u] for u in d.get('up', [])]
+        up = [self.dev[u] for u in d.get('up_init', d.get('up', []))]
         if k == 'source':
             self.nsrc += 1
             gen = HPartGen(name, 1000 * self.nsrc, **d.get('gen', {}))
@@ -714,6 +728,15 @@ class LineWorld:
                 o.add_sensor(self.dev[sname])
             return o
         raise HarnessError(f'unknown auxiliary kind {k}')
+
+    def apply_rewire(self):
+        '''Connections that close a cycle in the graph cannot be given to constructors: a device with 'up_init' is
+        built with that list and re-wired to its final 'up' list once every device exists.'''
+        for d in self.spec['devices']:
+            if 'up_init' in d:
+                lst = [self.dev[u] for u in d['up']]
+                self.dev[d['name']].set_upstream(lst)
+                lst.clear()
 
     def _init_like_simulate(self):
         '''Exactly what System.simulate()/Environment.run() do before the loop.'''
@@ -1309,6 +1332,8 @@ def run_e2(spec, monitor_factory, path, prefix_ok=False, trace=False, lenient=Fa
             except _PrefixDone:
                 return None
             rest = list(it)
+            if rest and lenient:
+                rest = []        # a regression artefact whose tail no longer exists on the repaired tree (e.g. an event storm)
             if rest:
                 due = [e for e in w.env._events if e.time <= w.horizon]
                 if due:
